@@ -8,7 +8,7 @@ from common import Outcome, frac_str, classify_exc
 import fam_cal
 from fam_cal import to_us, from_us, DAY_US, BASE_DAY, py_num
 
-NAMES = [None, 'a', 'b', 'c']          # resource names; key = index-1 (None -> null)
+NAMES = [None, 'a', 'b', 'c', 'zz']    # resource names; key = index-1 (None -> null); 'zz' is the dead resource of the 'prior failing calc' cases
 H = 3600 * 10**6
 
 
@@ -49,9 +49,14 @@ CALS = [
     lambda r: ['op', 'mul', ['WL', None, None, [0, 1, 2, 3, 4], '8'], ['N', r.choice(['1/2', '1/4', '2'])]],
     lambda r: ['op', 'or', ['D', [[(BASE_DAY + d) * DAY_US, '4'] for d in range(0, 30, 3)]], ['WL', None, None, [1, 3], '6']],
     lambda r: ['op', 'add', ['WL', None, None, [0, 1, 2, 3, 4], '6'], ['F', '2', (BASE_DAY + 5) * DAY_US, None]],
+    # a bounded part that ends exactly at a day's midnight; leaving it raises the capacity
+    lambda r: ['op', 'or', ['F', '4', None, (BASE_DAY + r.randrange(2, 14)) * DAY_US], ['WL', None, None, [0, 1, 2, 3, 4, 5, 6], '8']],
+    lambda r: ['op', 'sub', ['WL', None, None, [0, 1, 2, 3, 4, 5, 6], '8'], ['F', '4', None, (BASE_DAY + r.randrange(2, 14)) * DAY_US]],
+    lambda r: ['WL', None, (BASE_DAY + r.randrange(2, 14) + (40 if r.random() < 0.5 else 0)) * DAY_US, [0, 1, 2, 3, 4, 5, 6], '8'],
 ]
 DEAD = [lambda r: ['D', []], lambda r: ['F', '0', None, None], lambda r: ['WL', None, None, [], '8'],
         lambda r: ['WL', None, (BASE_DAY - 30) * DAY_US, [0, 1, 2, 3, 4], '8']]
+ODD = 9 * H + 1815250000          # 09:30:15.250000 - a time of day with seconds and microseconds
 EST = ['0', '1', '2', '3', '4', '8', '10', '16', '20', '1/2', '5/2', '40', '1/8', '7', '12']
 
 
@@ -74,7 +79,7 @@ def gen_case(rng, tier, direction=None, feats=None):
             t['res'] = 'a' if rng.random() < 0.85 else rng.choice([None, 'b'])
             t['est'] = rng.choice(['1', '2', '3', '4', '1/2', '5/2', '7', '4', '2'])
             if d == 'fwd' and rng.random() < 0.35:
-                t['min_start'] = (BASE_DAY + rng.randrange(0, 14)) * DAY_US + rng.choice([0, 0, 6 * H])
+                t['min_start'] = (BASE_DAY + rng.randrange(0, 14)) * DAY_US + rng.choice([0, 0, 6 * H, ODD])
         elif rng.random() < 0.75:
             t['est'] = rng.choice(EST)
         if rng.random() < 0.3:
@@ -82,18 +87,18 @@ def gen_case(rng, tier, direction=None, feats=None):
         if ms_ok and rng.random() < 0.1:
             t['ms'] = True
         if d == 'fwd' and not contention and rng.random() < 0.2:
-            t['min_start'] = (BASE_DAY + rng.randrange(-5, 30)) * DAY_US + rng.choice([0, 0, 6 * H])
+            t['min_start'] = (BASE_DAY + rng.randrange(-5, 30)) * DAY_US + rng.choice([0, 0, 6 * H, ODD])
         # a task flagged milestone may get children too (one case in eight allows it): it is then a summary (C07's roll-up applies)
         cands = [j for j in range(i) if not tasks[j]['ms'] or ms_parent]
         if cands and rng.random() < (0.2 if contention else 0.6):
             t['parent'] = rng.choice(cands)
         tasks.append(t)
     has_child = set(t['parent'] for t in tasks if t['parent'] is not None)
-    bound = (BASE_DAY + rng.randrange(0, 10)) * DAY_US + rng.choice([0, 0, 0, 9 * H, 13 * H + H // 2])
+    bound = (BASE_DAY + rng.randrange(0, 10)) * DAY_US + rng.choice([0, 0, 0, 9 * H, 13 * H + H // 2, ODD])
     if d == 'bwd':
         bound += 40 * DAY_US
     if rng.random() < 0.7:
-        now = bound - rng.randrange(0, 5) * DAY_US - rng.choice([0, 3 * H])
+        now = bound - rng.randrange(0, 5) * DAY_US - rng.choice([0, 3 * H, 3 * H + 250001])
     else:
         now = bound + rng.randrange(1, 4) * DAY_US + 5 * H
     if d == 'bwd':
@@ -105,7 +110,7 @@ def gen_case(rng, tier, direction=None, feats=None):
     if d == 'fwd' and not feats.get('no_fixed'):
         for i, t in enumerate(tasks):
             if i not in has_child and rng.random() < 0.12:
-                t['start'] = (BASE_DAY + rng.randrange(-10, 15)) * DAY_US + rng.choice([0, 8 * H])
+                t['start'] = (BASE_DAY + rng.randrange(-10, 15)) * DAY_US + rng.choice([0, 8 * H, ODD])
             if rng.random() < 0.08:
                 t['end'] = now - rng.randrange(4, 9) * DAY_US - rng.choice([0, 5 * H])
                 if i not in has_child and rng.random() < 0.7:
@@ -145,6 +150,14 @@ def gen_case(rng, tier, direction=None, feats=None):
     case = {'dir': d, 'tasks': tasks, 'links': links, 'resources': resources, 'bound': bound, 'clock': clock,
             'balance': rng.random() < (0.9 if contention else 0.7), 'defaultEst': rng.choice(['0', '0', '8', '3']), 'floats': rng.random() < 0.5,
             'dead': dead}
+    if rng.random() < 0.3:
+        case['ctorLead'] = rng.randrange(1, 9) * DAY_US + rng.choice([0, 5 * H])
+    r = rng.random()
+    if r < 0.1:
+        case['prior'] = 'ok'
+    elif r < 0.25:
+        case['prior'] = 'fail'
+        case['resources'] = [x for x in case['resources'] if x[0] != 'zz'] + [['zz', ['D', []]]]
     # keep only the links the graph API accepts (the case stays replayable: rejected links are dropped)
     case['links'] = build(case)[3]
     return case
@@ -201,7 +214,14 @@ def build(case):
 
 def resources_of(case):
     from pjplan import Resource
-    return [Resource(name, fam_cal.build_impl(expr, case.get('floats', False))) for name, expr in case['resources']]
+    from pjplan.calendar import FuncCalendar, FixedCalendar
+
+    def poison(_date):
+        raise RuntimeError('poisoned resource')
+    # 'zz' is used by the poison task of a 'prior failing calc' only (never by a task of the case): its calendar raises at the first
+    # query, which ends that calc in the middle of its pass without walking the 100 000-day horizon (the model is given an empty calendar)
+    return [Resource(name, FuncCalendar(FixedCalendar(8), poison) if name == 'zz' else fam_cal.build_impl(expr, case.get('floats', False)))
+            for name, expr in case['resources']]
 
 
 def snapshot(w, objs):
@@ -218,12 +238,29 @@ def us_or_none(d):
 def run_calc(case, w, objs, clock=None, scheduler=None):
     """one calc under the scripted clock; returns (obs dict, scheduler object)"""
     from pjplan import ForwardScheduler, BackwardScheduler
-    set_clock(clock or case['clock'])
     if scheduler is None:
+        # the scheduler object is built under its own clock (possibly days before the calc): calc must read the clock itself
+        set_clock([(clock or case['clock'])[0] - case.get('ctorLead', 0)])
         cls = ForwardScheduler if case['dir'] == 'fwd' else BackwardScheduler
         kw = {'start' if case['dir'] == 'fwd' else 'end': from_us(case['bound'])}
         scheduler = cls(resources=resources_of(case), balance_resources=case['balance'],
                         default_estimate=py_num(case['defaultEst'], False), **kw)
+        prior = case.get('prior')
+        if prior:
+            # an earlier use of the same scheduler object: a successful calc of the same WBS, or a calc that fails in the middle
+            # of its pass (a last root task on the dead resource 'zz') - the calc that follows must not see any of it
+            set_clock(clock or case['clock'])
+            try:
+                if prior == 'ok':
+                    scheduler.calc(w)
+                else:
+                    from pjplan import Task
+                    w2 = build(case)[0]
+                    w2 // Task(987654, 'poison', resource='zz', estimate=8)
+                    scheduler.calc(w2)
+            except Exception:  # noqa
+                pass
+    set_clock(clock or case['clock'])
     try:
         sch = scheduler.calc(w)
     except Exception as e:  # noqa
